@@ -39,4 +39,4 @@ ASSUMPTIONS = ['SC (A1); the one store->load pair that needs a fence on x86-TSO 
                'whole-runtime clause "when every kernel thread is idle no runnable fiber is queued" is a history property over all threads: not decided by per-function contracts (see DESIGN.md)']
 # only the owning kernel thread pushes/pops its deques (anchor: fiber_manager.c): the functions that must re-fetch the per-thread manager after a
 # call that can migrate the fiber, and the scheduler-level use of the deques (C10), run here as well
-IMPORTS = [dict(prop='C01', groups=['clear_or_wait', 'wake_from_mpsc', 'wake_from_mpmc', 'maintenance_migrating_unlock']), dict(prop='C10', groups=['schedule', 'next'])]
+IMPORTS = [dict(prop='C01', groups=['yield_switch', 'maintenance', 'clear_or_wait', 'wake_from_mpsc', 'wake_from_mpmc', 'maintenance_migrating_unlock']), dict(prop='C10', groups=['schedule', 'next'])]
